@@ -22,7 +22,7 @@ PROP = "C07"
 LEVEL = "exploration"
 RULE = ("seeded scenarios. Network kind: parent-closed topology of 2..8 addresses of which a seeded subset is absent (next hop "
         "absent) or halted; histories (<= 12 calls, up to 3 in flight on different nodes) of write/send (direct, routed, to self, "
-        "traffic_direct), multicast, node_address=, multicast_level=, MCU crash+restart (fresh object on the still running radio), pass-through radio attributes (interrupt_config, pa_level, channel, getters), "
+        "traffic_direct), multicast, node_address=, multicast_level=, MCU crash+restart (fresh object on the still running radio), pass-through radio attributes (interrupt_config, pa_level, channel, getters; power = False / listen = False by the application, after which the node's next transmission must leave it listening again), "
         "re-configuration of address prefix/suffix/allow_multicast followed by node_address re-assignment, "
         "fragmented and single-frame, ack and non-ack types. Mesh "
         "kind: master + 1..3 mesh nodes with histories of renew_address, release_address, lookup_address, lookup_node_id, "
@@ -104,8 +104,14 @@ def make(i, base_seed, tier):
                 ops.append({"node": who, "op": "restart"})
             elif o < 0.96:
                 # radio attributes the network classes pass through; none of them may take the node out of RX mode
-                ops.append({"node": who, "op": "radio_cfg", "what": rng.choice(["interrupt_config", "pa_level", "channel_same", "getters"]),
+                ops.append({"node": who, "op": "radio_cfg", "what": rng.choice(["interrupt_config", "pa_level", "channel_same", "getters", "power_off", "listen_off"]),
                             "args": [rng.random() < 0.5 for _ in range(3)]})
+                if ops[-1]["what"] in ("power_off", "listen_off") and rng.random() < 0.8:
+                    # the application put the radio to sleep / took it out of RX mode itself; its next transmitting call has to
+                    # leave the node listening again
+                    dst = rng.choice([a for a in topo if a != who] or [0])
+                    ops.append({"node": who, "op": rng.choice(["write", "write", "multicast"]), "dst": dst, "len": rng.choice([0, 5, 24, 40]), "type": rng.choice([1, 70]),
+                                "seed": rng.getrandbits(20), "api": "write", "direct": None, "async": False, "level": None})
             elif o < 0.98:
                 # documented way to apply new address bytes / multicast setting: change them, then re-assign node_address
                 ops.append({"node": who, "op": "reconfigure", "prefix": rng.choice([0xCC, 0x5A, 0x11]), "suffix_rot": rng.randrange(6),
@@ -148,6 +154,16 @@ class Checker:
 
     def __call__(self, nc, name):
         self.calls += 1
+        if getattr(nc, "user_off", False):
+            # the application itself powered the radio down / left RX mode through a pass-through attribute: nothing is owed until
+            # its next transmitting call or address assignment, which has to resume listening
+            n0 = name.split(":")[0]
+            if len(nc.radio.cycles) > getattr(nc, "cyc_at_off", 0) or n0 == "reconfigure" or (n0 == "node_address" and getattr(nc, "assign_valid", False)):
+                # the node has transmitted since (or re-opened its pipes): that call must have left it listening
+                nc.user_off = False
+                self.res.count("resumed_after_user_switch_off")
+            else:
+                return
         r = nc.radio
         node = nc.node
         bad = []
@@ -269,6 +285,13 @@ def _run_net(scn, w, net, res):
                     node.pa_level = -12
                 elif op["what"] == "channel_same":
                     node.channel = node.channel
+                elif op["what"] in ("power_off", "listen_off"):
+                    nc_ = net.nodes[op["node"]]
+                    nc_.user_off, nc_.cyc_at_off = True, len(nc_.radio.cycles)
+                    if op["what"] == "power_off":
+                        node.power = False
+                    else:
+                        node.listen = False
                 else:
                     with contextlib.redirect_stdout(io.StringIO()):
                         node.print_pipes()
@@ -292,6 +315,7 @@ def _run_net(scn, w, net, res):
             if op["op"] == "multicast_level":
                 node.multicast_level = op["v"]
             elif op["op"] == "node_address":
+                net.nodes[op["node"]].assign_valid = netref.valid_addr_doc(op["v"])   # (an invalid value is ignored by the setter)
                 node.node_address = op["v"]
             return None
         c = net.post(k, o, do)
